@@ -79,6 +79,7 @@ structure Url where
   dnsOk : Bool        -- http(s): `lookupHost` succeeds
   hasPort : Bool      -- svc: port present
   hasNs : Bool        -- svc: namespace given or taken from the source object
+  nsOk : Bool         -- svc: same namespace as the source, or cross-namespace-services allows it
   svcFound : Bool     -- svc: `FindBackend` finds the service backend
   target : Nat        -- identity of the backend the URL designates (auth backend key / service backend)
   path : String       -- urlPath ("" is replaced by "/")
@@ -157,6 +158,7 @@ def resolveTarget (ext lua : Bool) (u : Url) : Option Nat :=
     | .svc =>
       if !u.hasPort then none
       else if !u.hasNs then none
+      else if !u.nsOk then none
       else if !u.svcFound then none
       else some u.target
     | .other => none
